@@ -330,6 +330,7 @@ def _datasets(job):
                         np.random.seed(int(ev['s']))
                     elif ev['e'] == 'GlobalDraw':
                         np.random.random_sample(3)
+                        np.random.normal()          # leaves a cached Gaussian behind: part of the generator state a caller can observe
                 except Exception as ex:
                     err = type(ex).__name__
                     rec['rows'] = -1
